@@ -29,4 +29,15 @@ def conforms : List SOut → List (List Byte) → Bool
   | .item _ :: _, [] => false
   | .ended :: t, owed => owed.isEmpty && conforms t owed
   | .fail _ :: _, _ => false
+
+/-- Completeness on one observed run of the stream: once every byte the peer sends has arrived, a poll of the stream is not
+    pending while a reply is still owed (the stream may not sit on a frame that is there). -/
+def complete : List Ev → List SOut → (notArrived : Nat) → (owed : Nat) → Bool
+  | [], _, _, _ => true
+  | .arrive b :: t, outs, na, ow => complete t outs (na - b.length) ow
+  | .close :: t, outs, na, ow => complete t outs na ow
+  | .poll :: t, o :: outs, na, ow =>
+    (match o with | .pending => !(na == 0 && decide (0 < ow)) | _ => true) &&
+      complete t outs na (match o with | .item _ => ow - 1 | _ => ow)
+  | .poll :: _, [], _, _ => true
 end SpecChain
